@@ -18,7 +18,7 @@ T = {
  "C03": ("exploration", "interpretation of the DATE/DATE-TIME/TIME codecs on position-marker texts; bounded-domain interpretation of UTC-OFFSET and DURATION against an independent RFC reader; the combined decoder on one text of every RFC form; regex language inclusion (own NFA/DFA over re._parser ASTs); exception-escape analysis of every from_ical; scalar codecs (INTEGER beyond 2^53, FLOAT, BOOLEAN, URI, weekday, month) on concrete values",
          "Writer layout = reader slices = RFC text shape for the fixed-width codecs however they are written; UTC-OFFSET (all hours x boundary minutes/seconds x sign) and DURATION (every unit-presence pattern x boundary magnitudes x sign) encode to RFC grammar, denote the value and decode back; every RFC form is classified as the right type incl. lists/periods with a time zone; codec objects render the value they hold now; every codec's from_ical converts failures to ValueError.",
          "UTC-OFFSET/DURATION are decided on a bounded value domain, not for all magnitudes; INTEGER/FLOAT/BOOLEAN/URI/weekday/month are decided on concrete samples of every magnitude class (incl. beyond 2^53), BINARY on sample texts (base64 computed).", "15.3/C03"),
- "C04": ("other", "exception-escape analysis over the resolved call graph with handler subtraction, guard facts and caller-side guard binding; abstract interpretation of the parse loop on sequences with unsplittable lines and undecodable values; re-serialisation of whatever the composite decoders accept (RECUR/lists/combined decoder x member kinds); lazily evaluated generators in the interpreter",
+ "C04": ("other", "exception-escape analysis over the resolved call graph with handler subtraction, guard facts and caller-side guard binding; abstract interpretation of the parse loop on sequences with unsplittable lines and undecodable values; re-serialisation of whatever the composite decoders accept (RECUR/lists/combined decoder x member kinds); lazily evaluated generators in the interpreter; whole-parser interpretation on concrete inputs of every failure class incl. list-shaped (multi-valued) TZID parameters",
          "For the entry points from_ical/to_ical/walk every typed risk site in the cone is under a converting handler, discharged by a dominating guard, or justified; inside a lenient component a bad line/value is recorded and dropped with everything else kept, elsewhere it is a ValueError; provider lookups return None on the external's documented exceptions.",
          "Exact on what it reports, incomplete by construction: receivers of unknown static type raise nothing; dateutil/pytz/zoneinfo internals are opaque; termination/CPU bound not decided.", "16/C04"),
  "C05": ("exploration", "bounded exhaustive abstract execution (own interpreter, never the repository) of Contentline.from_parts/parts, Parameters.to_ical/from_ical and the line-list serialiser on every string up to a length bound over the character-class quotient computed from the source; who-may-construct rule; regex class inclusions",
@@ -42,16 +42,16 @@ T = {
  "C11": ("other", "finite abstract interpretation over tz-kinds (naive/utc/zoned, UTC-alias zone) of the TZID producers under both provider models; interpretation of TZP.localize_utc/localize on provider-level contracts; parse-loop probe for TZID forwarding; ownership of parameters; providers' localize/localize_utc on the library contract; tz database modelled with ids differing only in punctuation",
          "UTC values get Z and no TZID, zoned values (incl. aliases of UTC) their own TZID and no Z, naive neither, in all producers; every field the DATE-TIME writer formats is read from a value with the stored value's kind, zone and instant (interpreted on position markers); RFC UTC-only properties are forced to UTC; the TZID is handed to the decoder of every value of a line exactly for the names that admit it.",
          "Offsets near transitions, tz database content and provider agreement are runtime facts and are not decided; tzid_from_dt by contract.", "15.4/C11"),
- "C12": ("other", "abstract interpretation (own interpreter over the repo ASTs) of Timezone.get_transitions and PYTZ.create_timezone on abstract VTIMEZONEs - symbolic local onsets as linear terms, concrete whole-minute offsets, DTSTART/RDATE/RRULE onsets, dateutil by contract - against an RFC 5545 3.6.5 oracle; global read/write effect analysis across parses; sibling interface completeness; interpretation of the VTIMEZONE caching path on a stub provider",
+ "C12": ("other", "abstract interpretation (own interpreter over the repo ASTs) of Timezone.get_transitions and PYTZ.create_timezone on abstract VTIMEZONEs - symbolic local onsets as linear terms, concrete whole-minute offsets, DTSTART/RDATE/RRULE onsets (RDATE before DTSTART included), dateutil by contract - against an RFC 5545 3.6.5 oracle; global read/write effect analysis across parses; sibling interface completeness; interpretation of the VTIMEZONE caching path on a stub provider",
          "For 11 abstract VTIMEZONE shapes: one transition per distinct onset, ordered by local onset; UTC onset = local onset minus TZOFFSETFROM (as a symbolic term); offset in force = TZOFFSETTO; DST part from the nearest STANDARD observance; name = TZNAME; RRULE expanded in the TZOFFSETFROM offset; the pytz zone class carries exactly these transitions. No process-global state written by one parse is read by another except the listed known finding; both providers implement the full interface; a custom TZID is served by the zone built from the calendar's own VTIMEZONE.",
          "What dateutil/pytz/zoneinfo report at each instant from the transitions they are given, dateutil's expansion of an RRULE, the zoneinfo provider's path through dateutil.tz.tzical, second-granular offsets and generated names for observances without TZNAME are not decided; K4 (process-wide first-wins VTIMEZONE cache) is a known finding.", "19.2"),
  "C14": ("other", "abstract evaluation of Alarms.times / Alarm.triggers and the manual Alarms() paths in linear normal form over symbolic start/end/trigger/duration, under the zoneinfo and the pytz provider model; symbolic trip count where the loop has that shape; start and end in different zones (instant vs wall-clock arithmetic)",
          "For every alarm shape (incl. zero-length triggers, alarms added after the component) the computed times are anchor + TRIGGER + k*DURATION with k = 0..REPEAT exactly when DURATION is present, the anchor is start/end per RELATED, absolute triggers ignore the component, only the documented errors occur, and pytz wall clocks are not re-read after arithmetic.",
          "REPEAT in 0..2 (3 thorough) concretely, symbolically when the repeat loop is a range loop; date vs date-time arithmetic values are not decided.", "16/C14"),
- "C15": ("proof", "exhaustive abstract evaluation of the real ASTs of AlarmTime.acknowledged/trigger/is_active and Alarms._alarm_time over all order types x presence x trigger kinds (both provider models), against the decision table of the statement; history independence of the Alarms object; order independence of settings made before add_component; sub-second fields on a quarter-second model",
+ "C15": ("proof", "exhaustive abstract evaluation of the real ASTs of AlarmTime.acknowledged/trigger/is_active and Alarms._alarm_time over all order types x presence x trigger kinds (both provider models), against the decision table of the statement; history independence of the Alarms object (settings made, read, withdrawn with None); order independence of settings made before add_component; sub-second fields on a quarter-second model",
          "The functions observe instants only through comparisons/None tests (checked), so the finite quotient is exact: every case equals the decision table; active is exactly the sub-list of times; reading times/active never freezes later settings.",
          "Trusted: the abstract interpreter and its semantic table for date/datetime comparison; contracts of tzp.localize_utc / normalize_pytz.", "16/C15"),
- "C16": ("model_checking", "presence/kind state machine extracted by abstract interpretation of the descriptor setter/deleter ASTs, explored to closure over all stored states; getter decision tables (also under the pytz provider model); every edit with and without earlier reads of start/end/duration (read purity); DURATIONs of negative and zero length",
+ "C16": ("model_checking", "presence/kind state machine extracted by abstract interpretation of the descriptor setter/deleter ASTs, explored to closure over all stored states; getter decision tables (also under the pytz provider model); every edit with and without earlier reads of start/end/duration (read purity); DURATIONs of negative and zero length; re-assignment of the stored value; instances of date/datetime subclasses (type() vs isinstance)",
          "All states reachable through the start/end/DTSTART/DTEND|DUE/DURATION setters and deleters satisfy exclusivity; rejected arguments leave the state unchanged; start/end/duration getters equal the RFC decision table for every stored shape; Event and Todo agree; end is the instant start + DURATION.",
          "CaselessDict semantics as decided in C17; states reached through add()/item assignment are inputs of the getter tables and of the machine's start states.", "16/C16"),
  "C17": ("exploration", "model-based exploration by interpretation: the CaselessDict family's own methods on a model of the builtin OrderedDict, on every sequence of mapping operations up to a bound, compared after every step with a dictionary keyed by the upper-cased name; canonical ordering of every class of the family",
